@@ -1025,4 +1025,289 @@ example : demoAscii.Ascii (fun _ => none) ∧ demoAscii.WF asciiFrame := by
 /-- 1.5 as a double is finite -/
 example : (doubleParts 4609434218613702656).isSome := by decide
 
+/-! ### record schemas: the theorems hold for EVERY schema built from the field combinators
+
+`Rec` / `FileS` (Model/Cccc.lean) are first-order syntax for a format's `readWrite()`: int / long / real / double /
+string fields, counted repetition (`rwList`, `rwMatrix`), conditional fields and records, counted loops, with every
+count and condition an integer expression over the header values read so far. The theorems below are proved by
+induction over that syntax, so they hold for each of the per-format schemas at the end of the model file and for any
+other schema one could write down. -/
+
+/-- a class of record programs closed under the five routines of `cs` -/
+structure Codecs.Closed (cs : Codecs) {α : Type} (Q : RW α → Prop) : Prop where
+  ci : ∀ v k, (∀ x, Q (k x)) → Q (.prim cs.ci v k)
+  cl : ∀ v k, (∀ x, Q (k x)) → Q (.prim cs.cl v k)
+  cf : ∀ v k, (∀ x, Q (k x)) → Q (.prim cs.cf v k)
+  cd : ∀ v k, (∀ x, Q (k x)) → Q (.prim cs.cd v k)
+  cs : ∀ len v k, (∀ x, Q (k x)) → Q (.prim (cs.cs len) v k)
+
+private theorem fldRW_closed {α} {cs : Codecs} {Q : RW α → Prop} (h : cs.Closed Q) (t : Ty) (key : Option String)
+    (env : Env) (inp acc : List Val) (k : Kont α) (hk : ∀ e i a, Q (k e i a)) : Q (fldRW cs t key env inp acc k) := by
+  unfold fldRW
+  cases t with
+  | i => exact h.ci _ _ (fun _ => hk _ _ _)
+  | l => exact h.cl _ _ (fun _ => hk _ _ _)
+  | f => exact h.cf _ _ (fun _ => hk _ _ _)
+  | d => exact h.cd _ _ (fun _ => hk _ _ _)
+  | s len => exact h.cs len _ _ (fun _ => hk _ _ _)
+
+private theorem repRW_closed {α} {cs : Codecs} {Q : RW α → Prop} (h : cs.Closed Q) (t : Ty) (key : Option String)
+    (n : Nat) : ∀ (i : Nat) (env : Env) (inp acc : List Val) (k : Kont α), (∀ e i a, Q (k e i a)) →
+      Q (repRW cs t key n i env inp acc k) := by
+  induction n with
+  | zero => intro i env inp acc k hk; exact hk _ _ _
+  | succ n ih =>
+    intro i env inp acc k hk
+    exact fldRW_closed h t _ env inp acc _ (fun e i' a => ih (i + 1) e i' a k hk)
+
+private theorem loopRW_closed {α} {Q : RW α → Prop} (body : Env → List Val → List Val → Kont α → RW α)
+    (hb : ∀ e i a (k : Kont α), (∀ e' i' a', Q (k e' i' a')) → Q (body e i a k)) (v : String)
+    (n : Nat) : ∀ (i : Nat) (env : Env) (inp acc : List Val) (k : Kont α), (∀ e i a, Q (k e i a)) →
+      Q (loopRW body v n i env inp acc k) := by
+  induction n with
+  | zero => intro i env inp acc k hk; exact hk _ _ _
+  | succ n ih =>
+    intro i env inp acc k hk
+    exact hb _ _ _ _ (fun e i' a => ih (i + 1) e i' a k hk)
+
+/-- every record schema denotes a program of the class, whatever the header values, the data and the continuation -/
+theorem Rec.toRW_closed {α} {cs : Codecs} {Q : RW α → Prop} (h : cs.Closed Q) (r : Rec) :
+    ∀ (env : Env) (inp acc : List Val) (k : Kont α), (∀ e i a, Q (k e i a)) → Q (r.toRW cs env inp acc k) := by
+  induction r with
+  | nil => intro env inp acc k hk; exact hk _ _ _
+  | fld t b rest ih =>
+    intro env inp acc k hk
+    exact fldRW_closed h t _ env inp acc _ (fun e i a => ih e i a k hk)
+  | rep n t b rest ih =>
+    intro env inp acc k hk
+    exact repRW_closed h t b _ 0 env inp acc _ (fun e i a => ih e i a k hk)
+  | strv len rest ih =>
+    intro env inp acc k hk
+    exact fldRW_closed h _ _ env inp acc _ (fun e i a => ih e i a k hk)
+  | opt c body rest ihb ihr =>
+    intro env inp acc k hk
+    simp only [Rec.toRW]
+    split
+    · exact ihb env inp acc _ (fun e i a => ihr e i a k hk)
+    · exact ihr env inp acc k hk
+  | loop n v body rest ihb ihr =>
+    intro env inp acc k hk
+    exact loopRW_closed (body.toRW cs) (fun e i a k' hk' => ihb e i a k' hk') v _ 0 env inp acc _
+      (fun e i a => ihr e i a k hk)
+
+private theorem loopF_closed {α} {Qf : File α → Prop} (body : St → (St → File α) → File α)
+    (hb : ∀ st (k : St → File α), (∀ st', Qf (k st')) → Qf (body st k)) (v : String)
+    (n : Nat) : ∀ (i : Nat) (st : St) (k : St → File α), (∀ st', Qf (k st')) → Qf (loopF body v n i st k) := by
+  induction n with
+  | zero => intro i st k hk; exact hk _
+  | succ n ih =>
+    intro i st k hk
+    exact hb _ _ (fun st' => ih (i + 1) _ k hk)
+
+/-- every file schema denotes a file program all of whose records are of the class -/
+theorem FileS.toFile_closed {α} {cs : Codecs} {Qr : RW St → Prop} (hQr : cs.Closed Qr) (hdone : ∀ st, Qr (.done st))
+    {Qf : File α → Prop} (hrec : ∀ (body : RW St) (k : St → File α), Qr body → (∀ b, Qf (k b)) → Qf (.record body k))
+    (s : FileS) : ∀ (st : St) (k : St → File α), (∀ st', Qf (k st')) → Qf (s.toFile cs st k) := by
+  induction s with
+  | nil => intro st k hk; exact hk _
+  | one r rest ih =>
+    intro st k hk
+    exact hrec _ _ (Rec.toRW_closed hQr r _ _ _ _ (fun e i a => hdone _)) (fun b => ih b k hk)
+  | opt c body rest ihb ihr =>
+    intro st k hk
+    simp only [FileS.toFile]
+    split
+    · exact ihb st _ (fun st' => ihr st' k hk)
+    · exact ihr st k hk
+  | loop n v body rest ihb ihr =>
+    intro st k hk
+    exact loopF_closed (body.toFile cs) (fun st' k' hk' => ihb st' k' hk') v _ 0 st _ (fun st' => ihr st' k hk)
+
+theorem binaryCodecs_closed {α} : binaryCodecs.Closed (RW.Binary (α := α)) where
+  ci := fun v _ h => ⟨IsBinary.i32, h v⟩
+  cl := fun v _ h => ⟨IsBinary.i64, h v⟩
+  cf := fun v _ h => ⟨IsBinary.f32, h v⟩
+  cd := fun v _ h => ⟨IsBinary.f64, h v⟩
+  cs := fun len v _ h => ⟨IsBinary.s len, h v⟩
+
+/-- **Every schema is a binary file program**: whatever the format's schema, the header values and the data, all
+records written through the Binary record classes consist of the five binary routines only. -/
+theorem schema_binary (s : FileS) (env0 : Env) (inp : List Val) : (schemaFile binaryCodecs s env0 inp).Binary :=
+  FileS.toFile_closed (Qr := RW.Binary) (Qf := File.Binary) binaryCodecs_closed (fun _ => trivial)
+    (fun _ _ hb hk => ⟨hb, hk _⟩) s _ _ (fun _ => trivial)
+
+/-- **Read-back for every schema (binary).** For every file schema built from the field combinators - int, long,
+real, double, string fields, counted lists/matrices, conditional fields, optional records, counted loops of fields and
+of records, all counts and conditions computed from the header values READ so far - every assignment of the values
+that are not in the file and every container whose values are in the routines' ranges: reading the bytes the writer
+produced returns exactly the header values and the data the writer saw, and consumes exactly those bytes. -/
+theorem schema_roundtrip_binary (s : FileS) (env0 : Env) (inp : List Val)
+    (h : (schemaFile binaryCodecs s env0 inp).WF binaryFrame) (rest : Bytes) :
+    (schemaFile binaryCodecs s env0 inp).read binaryFrame
+        (((schemaFile binaryCodecs s env0 inp).write binaryFrame).1 ++ rest)
+      = some (((schemaFile binaryCodecs s env0 inp).write binaryFrame).2, rest) :=
+  file_roundtrip_binary _ (schema_binary s env0 inp) h rest
+
+/-- **Framing for every schema**: each record of the file any schema writes carries a count equal to its payload's
+byte length (the leading and the trailing count are the same field, see `record_framed`). -/
+theorem schema_frames (s : FileS) (env0 : Env) (inp : List Val) :
+    ∀ fr ∈ (schemaFile binaryCodecs s env0 inp).frames, fr.1 = fr.2.length :=
+  frames_counts _ (schema_binary s env0 inp)
+
+/-- **Re-writing what was read, for every schema**: reading the written file and writing what was read gives the
+same bytes. -/
+theorem schema_write_read_write_binary (s : FileS) (env0 : Env) (inp : List Val)
+    (h : (schemaFile binaryCodecs s env0 inp).WF binaryFrame) (rest : Bytes) :
+    (((schemaFile binaryCodecs s env0 inp).reseed binaryFrame
+        (((schemaFile binaryCodecs s env0 inp).write binaryFrame).1 ++ rest)).write binaryFrame).1 ++ rest
+      = ((schemaFile binaryCodecs s env0 inp).write binaryFrame).1 ++ rest :=
+  write_read_write_binary _ (schema_binary s env0 inp) h rest
+
+theorem asciiCodecs_closed {α} (parse : Bytes → Option Nat) : (asciiCodecs parse).Closed (RW.Ascii (α := α) parse) where
+  ci := fun v _ h => ⟨IsAscii.int, h v⟩
+  cl := fun v _ h => ⟨IsAscii.int, h v⟩
+  cf := fun v _ h => ⟨IsAscii.real 4, h v⟩
+  cd := fun v _ h => ⟨IsAscii.real 8, h v⟩
+  cs := fun len v _ h => ⟨IsAscii.str len, h v⟩
+
+theorem schema_ascii (parse : Bytes → Option Nat) (s : FileS) (env0 : Env) (inp : List Val) :
+    (schemaFile (asciiCodecs parse) s env0 inp).Ascii parse :=
+  FileS.toFile_closed (Qr := RW.Ascii parse) (Qf := File.Ascii parse) (asciiCodecs_closed parse) (fun _ => trivial)
+    (fun _ _ hb hk => ⟨hb, hk _⟩) s _ _ (fun _ => trivial)
+
+/-- **Read-back for every schema (ASCII)** - _partial: as `file_roundtrip_ascii_partial`, the host's text <-> double
+conversion enters as `FloatParseSpec parse`; the statement is restricted to schemas without `rwLong` (the Ascii record
+classes have none). `WF` holds exactly when every integer (and every record's declared count) has at most nine
+digits, every real has a two-digit exponent, and text fits its field without trailing blanks. -/
+theorem schema_roundtrip_ascii_partial (parse : Bytes → Option Nat) (hparse : FloatParseSpec parse)
+    (s : FileS) (_hl : s.usesLong = false) (env0 : Env) (inp : List Val)
+    (h : (schemaFile (asciiCodecs parse) s env0 inp).WF asciiFrame) (rest : Bytes) :
+    (schemaFile (asciiCodecs parse) s env0 inp).read asciiFrame
+        (((schemaFile (asciiCodecs parse) s env0 inp).write asciiFrame).1 ++ rest)
+      = some (((schemaFile (asciiCodecs parse) s env0 inp).write asciiFrame).2, rest) :=
+  file_roundtrip_ascii_partial parse hparse _ (schema_ascii parse s env0 inp) h rest
+
+/-- a two-record schema: a header (flag, count), then - only when the flag is set - one record per count holding
+`count` doubles and a 4-character label -/
+private def demoSchema : FileS :=
+  .one (.fld .i (some { name := "FLAG" }) (.fld .i (some { name := "N" }) .nil))
+    (.opt (.lt (.lit 0) (.var "FLAG"))
+      (.loop (.var "N") "k" (.one (.rep (.var "N") .d none (.fld (.s 4) none .nil)) .nil) .nil) .nil)
+private def demoData : List Val := [.i 1, .i 2, .n 7, .n 8, .s [65], .n 9, .n 10, .s [66, 67]]
+example : ((schemaFile binaryCodecs demoSchema [] demoData).write binaryFrame).2.2 = (demoData, 0) := by decide
+example : ((schemaFile binaryCodecs demoSchema [] demoData).frames.map (·.1)) = [8, 20, 20] := by decide
+example : ((schemaFile binaryCodecs demoSchema [] [.i 0, .i 2]).frames.map (·.1)) = [8] := by decide
+example : (schemaFile binaryCodecs demoSchema [] demoData).WF binaryFrame := by
+  simp [schemaFile, demoSchema, demoData, FileS.toFile, Rec.toRW, fldRW, repRW, loopRW, loopF, File.WF, RW.WF, RW.write,
+    binaryCodecs, int32, bits64, str, binaryFrame, E.eval, Env.get, bindInt, bindLoop, List.eraseP, Bind.key, b2i, Val.int,
+    Val.nat, Val.str]
+  decide
+
+private theorem E.add_def (a b : E) : a + b = E.add a b := rfl
+private theorem E.sub_def (a b : E) : a - b = E.sub a b := rfl
+private theorem E.mul_def (a b : E) : a * b = E.mul a b := rfl
+private theorem E.one_def : (1 : E) = E.lit 1 := rfl
+
+/-- the block-width expression the PWDINT / RTFLUX / ATFLUX / RZFLUX schemas use IS `jU - jL + 1` of
+`getBlockBandwidth(b + 1, nintj, nblok)`, for all integers (so `bandwidth_partition` speaks about those schemas) -/
+theorem blockWidth_eval (b nintj nblok : E) (env : Env) (jL jU : Int)
+    (hbw : getBlockBandwidth (b.eval env + 1) (nintj.eval env) (nblok.eval env) = some (jL, jU)) :
+    (Schema.blockWidth b nintj nblok).eval env = jU - jL + 1 := by
+  unfold getBlockBandwidth at hbw
+  split at hbw
+  · simp at hbw
+  · simp only [Option.some.injEq, Prod.mk.injEq] at hbw
+    obtain ⟨h1, h2⟩ := hbw
+    subst h1; subst h2
+    simp only [Schema.blockWidth, E.add_def, E.sub_def, E.mul_def, E.one_def, E.eval]
+    generalize Int.fdiv _ _ = q
+    have e : (b.eval env + 1 - 1) = b.eval env := by omega
+    rw [e]
+    generalize (b.eval env + 1) * (q + 1) = p
+    generalize b.eval env * (q + 1) = r
+    omega
+
+example : (Schema.blockWidth (.lit 1) (.lit 5) (.lit 2)).eval [] = 2 ∧ getBlockBandwidth 2 5 2 = some (3, 4) := by decide
+
+/-! ### the accepted domain of the ASCII fields, as decidable predicates -/
+
+instance : DecidablePred asciiInt.ok := fun v => by unfold asciiInt; exact inferInstance
+instance (parse : Bytes → Option Nat) (declared : Nat) : DecidablePred (asciiReal parse declared).ok :=
+  fun n => by unfold asciiReal; exact inferInstance
+
+private theorem natDigits_length_ge (k n : Nat) (h : 10 ^ k ≤ n) : k + 1 ≤ (natDigits n).length := by
+  induction k generalizing n with
+  | zero => rw [natDigits]; split <;> simp
+  | succ k ih =>
+    rw [natDigits]
+    split
+    · rename_i hlt
+      have : 10 ^ (k + 1) ≥ 10 := by
+        have := Nat.pow_le_pow_right (n := 10) (by decide) (Nat.succ_le_succ (Nat.zero_le k))
+        simpa using this
+      omega
+    · have : 10 ^ k ≤ n / 10 := by
+        rw [Nat.le_div_iff_mul_le (by decide)]; rw [Nat.pow_succ] at h; exact h
+      have := ih (n / 10) this
+      simp; omega
+
+/-- **the integer field's domain is exactly "the text is 11 columns wide"**: |v| ≤ 999 999 999; any other integer
+makes the field wider than the reader's window (F24) -/
+theorem asciiInt_ok_iff_width (v : Int) : asciiInt.ok v ↔ (asciiIntField v).length = 11 := by
+  constructor
+  · exact asciiIntField_length v
+  · intro h
+    show -999999999 ≤ v ∧ v ≤ 999999999
+    by_cases hv : v.natAbs < 1000000000
+    · omega
+    · have := natDigits_length_ge 9 v.natAbs (by omega)
+      unfold asciiIntField padLeft at h
+      simp only [List.length_cons, List.length_append, List.length_replicate] at h
+      omega
+
+example : decide (asciiInt.ok 999999999) = true ∧ decide (asciiInt.ok (-1000000000)) = false := by decide
+
+/-! ### bookkeeping around the records -/
+
+theorem revGroup_involutive (ng g : Int) : revGroup ng (revGroup ng g) = g := by unfold revGroup; omega
+
+theorem revGroup_range (ng g : Int) (h : 0 ≤ g ∧ g < ng) : 0 ≤ revGroup ng g ∧ revGroup ng g < ng := by
+  unfold revGroup; omega
+
+/-- **the adjoint files' group reversal visits every group exactly once**: the container slots `gEff` taken for
+file positions g = 0..ng-1 are ng-1, …, 0 (ATFLUX, NAFLUX) -/
+theorem revGroup_enumerates (ng : Nat) :
+    (List.range ng).map (fun (g : Nat) => (revGroup (ng : Int) (g : Int)).toNat) = (List.range ng).reverse := by
+  apply List.ext_getElem?
+  intro i
+  by_cases h : i < ng
+  · rw [List.getElem?_reverse (by simpa using h)]
+    rw [List.getElem?_map, List.getElem?_range h, List.length_range, List.getElem?_range (by omega)]
+    simp only [Option.map_some, revGroup]
+    congr 1; omega
+  · have h1 : ((List.range ng).map (fun (g : Nat) => (revGroup (ng : Int) (g : Int)).toNat))[i]? = none := by
+      simp; omega
+    have h2 : ((List.range ng).reverse)[i]? = none := by simp; omega
+    rw [h1, h2]
+
+private theorem runningOffsets_eq (acc : Nat) (cs : List Nat) :
+    runningOffsets acc cs = (List.range cs.length).map (fun ii => acc + (cs.take ii).sum) := by
+  induction cs generalizing acc with
+  | nil => rfl
+  | cons c cs ih =>
+    simp only [runningOffsets, List.length_cons, List.range_succ_eq_map, List.map_cons, List.map_map]
+    rw [ih]
+    simp [Function.comp_def, Nat.add_assoc]
+
+/-- the ISOTXS record offsets (`LOCA`) are the running totals of the per-nuclide record counts: offset 0 for the
+first nuclide, each next one larger by the previous nuclide's number of records -/
+theorem recordOffsets_eq_running (counts : List Nat) : recordOffsets counts = runningOffsets 0 counts := by
+  rw [runningOffsets_eq]; simp [recordOffsets]
+
+/-- every nuclide has at least its 4D and 5D records -/
+theorem isotxsNumRecords_ge_two (chiFlag : Int) (ords : List Int) : 2 ≤ isotxsNumRecords chiFlag ords := by
+  unfold isotxsNumRecords; omega
+
+example : recordOffsets [3, 2, 5] = [0, 3, 5] ∧ isotxsNumRecords 1 [1, 0, 2, -1] = 4 ∧ revGroup 33 2 = 30 := by decide
+
 end ArmiVerif.Cccc
